@@ -185,6 +185,29 @@ pub fn seed_messages(wide: bool) -> Vec<Vec<u8>> {
             }
         }
     }
+    // OPT records that are not lifted (answer / authority section, or a second one), with every
+    // part of their TTL word populated (extended rcode, version, DO and other flag bits) and a non-root owner
+    for (i, o) in gen::opt_family().into_iter().enumerate() {
+        for ttl in [0x0000_8000u32, 0x0100_ffff, 0x8000_0001, 0x00ff_0000, 0x1234_5678] {
+            for owner in ["", "edns.example.com"] {
+                for section in 0..3u8 {
+                    let stray = RefRR { name: if owner.is_empty() { RefName::root() } else { RefName::txt(owner) }, class: 1, cache_flush: false, ttl, rdata: RefRData::StrayOpt(o.clone()) };
+                    let mut p = RefPacket { id: 0x2224, flags: F_QR, ..Default::default() };
+                    p.questions.push(q.clone());
+                    match section {
+                        0 => p.answers.push(stray),
+                        1 => p.authority.push(stray),
+                        _ => {
+                            p.opt = Some(gen::opt_family()[(i + 1) % 4].clone());
+                            p.additional.push(stray);
+                        }
+                    }
+                    p.additional.push(tail.clone());
+                    out.push(p.encode(0));
+                }
+            }
+        }
+    }
     for code in [10u16, 99, 65280] {
         let mut p = RefPacket { id: 0x3333, ..Default::default() };
         p.answers.push(rr("n.example.com", null_rdata(code, &[1, 2, 3, 4, 5])));
@@ -260,6 +283,42 @@ pub fn big_families() -> Vec<(String, Vec<u8>)> {
         }
         m[6..8].copy_from_slice(&n.to_be_bytes());
         out.push((format!("chain fan-in: {} label-free pointer hops, then {} {}", hops, n - 1, what), m));
+    }
+    // (b3) per type: as many records of that type (shortest canonical RDATA, and the default
+    // RDATA) as fit in 6 000 and in 65 535 bytes (per-record costs that grow with the record's
+    // position in the message add up here)
+    for sch in SCHEMAS {
+        let mut shortest = gen::default_vals(sch);
+        for v in shortest.iter_mut() {
+            match v {
+                schema::Val::Name(n) => *n = RefName::root(),
+                schema::Val::Str(s) => s.0.clear(),
+                schema::Val::Tail(t) => t.0.clear(),
+                schema::Val::Strs(s) => *s = vec![crate::refmodel::B(vec![])],
+                schema::Val::Params(p) => p.clear(),
+                schema::Val::Windows(w) => *w = vec![(0, crate::refmodel::B(vec![0x40]))],
+                schema::Val::Gateway(g) => *g = schema::Gw::None,
+                _ => {}
+            }
+        }
+        for (which, vals) in [("shortest", shortest), ("default", gen::default_vals(sch))] {
+            let mut rd = Vec::new();
+            schema::encode_vals(sch, &vals, &mut rd);
+            for limit in [6000usize, 65535] {
+                let mut m = header(0x8000, [0, 0, 0, 0]);
+                let mut n = 0u16;
+                while m.len() + 11 + rd.len() <= limit && n < 0xffff {
+                    m.push(0);
+                    m.extend_from_slice(&sch.code.to_be_bytes());
+                    m.extend_from_slice(&[0, 1, 0, 0, 0, 1]);
+                    m.extend_from_slice(&(rd.len() as u16).to_be_bytes());
+                    m.extend_from_slice(&rd);
+                    n += 1;
+                }
+                m[6..8].copy_from_slice(&n.to_be_bytes());
+                out.push((format!("{} {} records ({} RDATA) filling {} bytes", n, sch.mnemonic, which, m.len()), m));
+            }
+        }
     }
     // (c) maximal counts with minimal records
     let mut m = header(0x8000, [0, 0, 0, 0]);
